@@ -65,6 +65,11 @@ CLAIMED = {
         "level": "Decides necessary conditions E1-E5 over all 20 expression arms, 7 operator groups, ~320 result-returning call sites and 27 diagnostics; soundness of inference for all programs is not decided.",
         "note": "Partial: clauses E1-E5.",
     },
+    "C08": {
+        "technique": "ordered-call-event dominance on the MIR of every lowering method with argument-origin tracing (which sub-expression a visit call visits), iterator-chain inspection for reverse traversal, Value::BinOp operand wiring, truncation arithmetic in dead-code elimination",
+        "level": "Decides the visit order of the MIR lowerer (which fixes evaluation order) for all constructs named in the property; the emitted call sequence of every program is not decided.",
+        "note": "Partial: clauses O1-O3.",
+    },
 }
 _PENDING = "check under construction in this session; not yet claimed"
 NOT_APPLICABLE = {p: _PENDING for p in
